@@ -1,5 +1,6 @@
 import CssVerif.Lemmas.Tok
 import CssVerif.Lemmas.TokLex
+import CssVerif.Lemmas.TokStr
 /-!
 # C05 — tokenizer: total, lossless, position-accurate, classifies by the grammar
 
@@ -208,6 +209,32 @@ example : stringValue [0x22, 0x5C, 0x0D, 0x5C, 0x61, 0x20, 0x22] = [0x22, 0x0A, 
 /-- outside the region the two readings agree, e.g. `"a\<LF>b\41 "` -/
 example : stringValue [0x22, 0x61, 0x5C, 0x0A, 0x62, 0x5C, 0x34, 0x31, 0x20, 0x22] =
     tokenValue "STRING" [0x22, 0x61, 0x5C, 0x0A, 0x62, 0x5C, 0x34, 0x31, 0x20, 0x22] := by decide +kernel
+
+/-- **T5.4 for STRING / INVALID, one-pass reading, under the guard** `safe found` (Lemmas/TokStr.lean: a single pass
+over the source text that answers `false` exactly when a decoded newline directly follows an escaped backslash —
+written `\\` or as a hex escape of U+005C — or a decoded LF directly follows a continuation backslash-CR, i.e. in the
+region of the known finding): the value is `stringValue found` — escaped backslash kept, backslash-newline
+dropped, hex escapes decoded, all decided on the source text. -/
+theorem string_values_partial (text : Cps) (full doC : Bool) : ∀ it ∈ body text full doC,
+    cleanTypes.contains it.typ = true → safe it.found = true → it.value = stringValue it.found := by
+  intro it hit hcl hsafe
+  have hun : unescTypes.contains it.typ = true := by
+    have : ∀ t ∈ cleanTypes, unescTypes.contains t = true := by decide
+    exact this _ (by simpa using hcl)
+  rcases values text full doC it hit with hv | ⟨_, hc, _⟩
+  · rw [hv]
+    unfold tokenValue
+    rw [if_pos hun, if_pos hcl]
+    exact safe_stringValue _ hsafe
+  · rw [hc] at hcl
+    have : cleanTypes.contains "COMMENT" = false := by decide
+    rw [this] at hcl; cases hcl
+
+/-- the guard excludes both shapes of the finding and admits ordinary strings -/
+example : safe [0x22, 0x5C, 0x5C, 0x5C, 0x61, 0x20, 0x22] = false := by decide +kernel
+example : safe [0x22, 0x5C, 0x0D, 0x5C, 0x61, 0x20, 0x22] = false := by decide +kernel
+example : safe [0x22, 0x61, 0x5C, 0x0A, 0x62, 0x5C, 0x34, 0x31, 0x20, 0x5C, 0x5C, 0x5C, 0x22, 0x22] = true := by
+  decide +kernel
 
 /-! ## T5.5 error reports -/
 
